@@ -9,6 +9,7 @@ rm -rf build/zoneinfo && mkdir -p build/zoneinfo && tar xzf data/tzdata.tar.gz -
 ( cd vlib && cargo build --release --offline --bin vcheck )
 gcc -O2 -o build/glibc_ref refs/glibc_ref.c
 ( cd autotraits && cargo +nightly build --offline )
+( cd nostdprobe && cargo build --release --offline --target-dir /verif/target/nostdprobe )
 for cfg in none alloc std; do f=""; [ $cfg != none ] && f="--features $cfg"; ( cd cfgprobe && cargo build --release --offline --no-default-features $f --target-dir /verif/target/cfgprobe-$cfg ); done
 ( cd vlib && cargo build --profile nochecks --offline --bin vcheck )
 ( cd fuzz && cargo +nightly fuzz build -s none --fuzz-dir . )
